@@ -24,7 +24,12 @@ RULE = ('one case = 1..4 datasets + a skip list. Each dataset draws its sensors 
         'lib cases call merge_remap on objects; tool cases write real directories, run merge_kaptures(keep_sensor_ids=False) and read '
         'the output files back; every second tool case first fills the SAME output directory with an earlier merge_kaptures run of '
         'other datasets (no skip) and then merges with force and a skip list naming parts that the old output holds: the result is '
-        'judged against the second merge alone (skipped parts absent, nothing left from the old output). Non-trivial = at least two inputs with sensors and one non-skipped part present in some but not all '
+        'judged against the second merge alone (skipped parts absent, nothing left from the old output). Sessions: one lib case in '
+        'three and one tool case in four first run 1..2 EARLIER merges in the same process with the very same skip-list object '
+        '(lib: also the same data_paths / tar-handler lists, sometimes the same Kapture objects; tool: the same skip argument, or '
+        'no skip argument at all = the shared default), each earlier merge lacking a random set of parts in all its inputs; plus, '
+        'for each of the 10 skippable parts, a merge of datasets without the part followed by a merge of datasets with it. Every '
+        'merge of a session is judged on its own inputs, and the skip list is read back after every call. Non-trivial = at least two inputs with sensors and one non-skipped part present in some but not all '
         'inputs or in two inputs; distinct = distinct case content.')
 TRUSTED = ['tool cases: kapture.io.csv writers/readers are used to build the inputs, to learn what the tool loads from them '
            '(kapture_from_dir with the same skip list) and to read the output files (per-file readers, no sensor filtering)',
@@ -140,8 +145,40 @@ def _gen_case(rng, mode, n=None, dangling=False):
     return {'mode': mode, 'skip': skip, 'inputs': [_gen_dataset(rng, i, ctr, mode, None, dangling) for i in range(n)]}
 
 
+def _gen_before(rng, c, mode):
+    """earlier merges of the same process that are handed the SAME skip list object as the judged merge: 1..2 steps of
+    1..2 datasets each (lib: an item may be the index of a judged input = the very same Kapture object merged before),
+    each step lacking a random set of skippable parts in ALL its datasets"""
+    ctr = _Ctr()
+    ctr.n = 7000
+    steps = []
+    for _ in range(rng.choice([1, 1, 2])):
+        absent = [p for p in SKIPPABLE if rng.random() < 0.5]
+        step = []
+        for j in range(rng.choice([1, 2])):
+            if mode == 'lib' and rng.random() < 0.25:
+                i = rng.randrange(len(c['inputs']))
+                if all(c['inputs'][i][p] is None for p in absent) or rng.random() < 0.3:
+                    step.append(i)
+                    continue
+            d = _gen_dataset(rng, 10 + 10 * len(steps) + j, ctr, mode)
+            for p in absent:
+                d[p] = None
+            step.append(d)
+        steps.append(step)
+    return steps
+
+
 def gen_cases(rng, tier):
     cases = []
+    # the time dimension of "some inputs lack some parts": for each skippable part, a merge of datasets that all lack
+    # the part, then (same skip list object) a merge of datasets that all have it
+    for part in SKIPPABLE:
+        ctr = _Ctr()
+        present = {p: True for p in PARTS}
+        first = _gen_dataset(rng, 10, ctr, 'lib', dict(present, **{part: False}))
+        ins = [_gen_dataset(rng, i, ctr, 'lib', present) for i in range(2)]
+        cases.append({'mode': 'lib', 'skip': [], 'inputs': ins, 'before': [[first]]})
     # every presence pattern of each part over 2 and 3 inputs, everything else present
     for n in (2, 3):
         for part in PARTS:
@@ -156,7 +193,10 @@ def gen_cases(rng, tier):
                 cases.append({'mode': mode, 'skip': [], 'inputs': ins})
     n_lib, n_tool = (450, 110) if tier == 'quick' else (6000, 1200)
     for i in range(n_lib):
-        cases.append(_gen_case(rng, 'lib', dangling=(i % 12 == 11)))
+        c = _gen_case(rng, 'lib', dangling=(i % 12 == 11))
+        if i % 3 == 1:
+            c['before'] = _gen_before(rng, c, 'lib')
+        cases.append(c)
     for i in range(n_tool):
         c = _gen_case(rng, 'tool')
         if i % 2 == 1:
@@ -170,6 +210,12 @@ def gen_cases(rng, tier):
                 extra = rng.sample(had, rng.randint(1, min(3, len(had))))
                 c['skip'] = [p for p in SKIPPABLE if p in c['skip'] or p in extra]
             c['prior'] = prior
+        elif i % 4 == 0:
+            # session: earlier merge_kaptures calls of this process (own output directories) with the same skip argument
+            # object; with nothing to skip, every call of the session leaves the argument out (the default is one object)
+            c['before'] = _gen_before(rng, c, 'tool')
+            if not c['skip'] and rng.random() < 0.5:
+                c['skip_default'] = True
         cases.append(c)
     return cases
 
@@ -279,20 +325,50 @@ def _skip_types(skip):
     return [m[s] for s in SKIPPABLE if s in skip]
 
 
+_SKIP_NAME = None
+
+
+def _skip_names(sl):
+    """the caller's skip list as it is now: part names for the ten skippable types (or names), anything else by its name"""
+    global _SKIP_NAME
+    if _SKIP_NAME is None:
+        _SKIP_NAME = {t: n for n, t in zip(SKIPPABLE, _skip_types(SKIPPABLE))}
+    out = []
+    for t in sl:
+        if isinstance(t, str):
+            out.append(t)
+        else:
+            out.append(_SKIP_NAME.get(t) or ('?' + getattr(t, '__name__', repr(t))))
+    return out
+
+
 def _run_lib(case):
     from kapture.algo.merge_remap import merge_remap
     from kapture.io.records import TransferAction
     from kapture.io.tar import TarCollection
     ks = [_build(x) for x in case['inputs']]
-    before = [_flat(k) for k in ks]
-    res = {'inputs': before}
-    try:
-        m = merge_remap(ks, _skip_types(case['skip']), ['' for _ in ks], [TarCollection() for _ in ks], '', TransferAction.skip)
-        res['out'] = _flat(m)
-    except Exception as e:
-        res['exc'] = f'{type(e).__name__}: {e}'[:200]
-        res['exc_type'] = type(e).__name__
-    res['inputs_changed'] = ([_flat(k) for k in ks] != before)
+    sl = _skip_types(case['skip'])                  # ONE list object for every merge of the case
+    shared = {}                                     # data_paths / tar handler lists are re-used too (per length)
+
+    def call(objs):
+        before = [_flat(k) for k in objs]
+        r = {'inputs': before}
+        paths, tars = shared.setdefault(len(objs), (['' for _ in objs], [TarCollection() for _ in objs]))
+        try:
+            m = merge_remap(objs, sl, paths, tars, '', TransferAction.skip)
+            r['out'] = _flat(m)
+        except Exception as e:
+            r['exc'] = f'{type(e).__name__}: {e}'[:200]
+            r['exc_type'] = type(e).__name__
+        r['inputs_changed'] = ([_flat(k) for k in objs] != before)
+        r['skip_after'] = _skip_names(sl)
+        return r
+    skip_before = _skip_names(sl)
+    steps = [call([ks[it] if isinstance(it, int) else _build(it) for it in step]) for step in case.get('before') or []]
+    res = call(ks)
+    res['skip_before'] = skip_before
+    if case.get('before'):
+        res['before'] = steps
     return res
 
 
@@ -348,13 +424,40 @@ def _run_tool(case, ctx):
         except Exception as e:
             res['prior_exc'] = f'{type(e).__name__}: {e}'[:120]
         res['prior_out'] = sorted(p for p, v in _flat(_read_dir(out)).items() if v) if os.path.isdir(out) else []
-    try:
-        kapture_merge.merge_kaptures(roots, out, keep_sensor_ids=False, skip=list(case['skip']), force=True)
-        res['out'] = _flat(_read_dir(out))
-    except Exception as e:
-        res['exc'] = f'{type(e).__name__}: {e}'[:200]
-        res['exc_type'] = type(e).__name__
-    res['inputs_changed'] = ([_flat(kcsv.kapture_from_dir(r, skip_list=sl)) for r in roots] != loaded)
+    import inspect
+    default = inspect.signature(kapture_merge.merge_kaptures).parameters['skip'].default
+    use_default = bool(case.get('skip_default')) and not case['skip'] and isinstance(default, list)
+    skip_obj = default if use_default else list(case['skip'])      # ONE argument object for every merge of the case
+    res['skip_before'] = _skip_names(skip_obj)
+
+    def call(r, in_roots, in_loaded, out_dir):
+        try:
+            if use_default:
+                kapture_merge.merge_kaptures(in_roots, out_dir, keep_sensor_ids=False, force=True)
+            else:
+                kapture_merge.merge_kaptures(in_roots, out_dir, keep_sensor_ids=False, skip=skip_obj, force=True)
+            r['out'] = _flat(_read_dir(out_dir))
+        except Exception as e:
+            r['exc'] = f'{type(e).__name__}: {e}'[:200]
+            r['exc_type'] = type(e).__name__
+        r['inputs_changed'] = ([_flat(kcsv.kapture_from_dir(x, skip_list=sl)) for x in in_roots] != in_loaded)
+        r['skip_after'] = _skip_names(skip_obj)
+    steps = []
+    for k, step in enumerate(case.get('before') or []):
+        sroots = []
+        for j, x in enumerate(step):
+            if isinstance(x, int):
+                sroots.append(roots[x])
+            else:
+                r = os.path.join(base, f'b{k}in{j}')
+                kcsv.kapture_to_dir(r, _build(x))
+                sroots.append(r)
+        st = {'inputs': [_flat(kcsv.kapture_from_dir(r, skip_list=sl)) for r in sroots]}
+        call(st, sroots, st['inputs'], os.path.join(base, f'b{k}out'))
+        steps.append(st)
+    if steps:
+        res['before'] = steps
+    call(res, roots, loaded, out)
     shutil.rmtree(base, ignore_errors=True)
     return res
 
@@ -394,11 +497,22 @@ def _dangling(inputs, skip):
 
 
 def oracle(case, obs):
-    """The property, stated on the observed behaviour; the renaming is recovered from the output (every sensor has a
-    distinct name, every rig member a distinct pose), not assumed to follow the sensor<N> scheme."""
+    """The property, stated on the observed behaviour of EVERY merge of the case (the judged one and the earlier merges
+    of its session): each is the disjoint union of its own inputs under the skip list the caller built, whatever was
+    merged before with the same argument objects."""
+    for k, st in enumerate(obs.get('before') or []):
+        r = _judge(st, case['skip'])
+        if r:
+            return f'earlier merge {k + 1} of the session: {r}'
+    return _judge(obs, case['skip'])
+
+
+def _judge(obs, skip):
+    """one merge; the renaming is recovered from the output (every sensor has a distinct name, every rig member a
+    distinct pose), not assumed to follow the sensor<N> scheme."""
     if obs.get('inputs_changed'):
         return 'the merge modified its inputs'
-    inputs, skip = obs['inputs'], case['skip']
+    inputs = obs['inputs']
     if _dangling(inputs, skip):
         return None
     if 'exc' in obs:
@@ -516,18 +630,27 @@ def _c_dataset(con, x, table, none_if_empty=False):
                                     _c_fun(K2, x, table, none_if_empty), _c_fun(K3, x, table, none_if_empty))
 
 
+def _c_skiplist(names):
+    def one(n):
+        if n == 'trajectories':
+            return 'SkTraj'
+        if n in K2:
+            return f'(SkRec2 {K2[n]})'
+        if n in K3:
+            return f'(SkRec3 {K3[n]})'
+        return f'(SkOther {kv.cstr(n)})'
+    return kv.clist(one(n) for n in names)
+
+
 def encode(case, obs):
     table = {}
-    skip = case['skip']
-    def skipfun(kinds):
-        arms = [f'{con} => true' for p, con in kinds.items() if p in skip]
-        if len(arms) < len(kinds):
-            arms.append('_ => false')
-        return '(fun k => match k with %s end)' % ' | '.join(arms)
-    c_skip = '(mkSkip %s %s %s)' % (kv.cbool('trajectories' in skip), skipfun(K2), skipfun(K3))
-    c_in = kv.clist(_c_dataset('mkD', x, table) for x in obs['inputs'])
-    c_out = 'None' if 'exc' in obs else '(Some %s)' % _c_dataset('mkM', obs['out'], table, none_if_empty=True)
-    return '(mkCase %s %s %s)' % (c_skip, c_in, c_out)
+
+    def c_call(o):
+        c_in = kv.clist(_c_dataset('mkD', x, table) for x in o['inputs'])
+        c_out = 'None' if 'exc' in o else '(Some %s)' % _c_dataset('mkM', o['out'], table, none_if_empty=True)
+        return '(mkCall %s %s %s)' % (c_in, c_out, _c_skiplist(o['skip_after']))
+    calls = [c_call(o) for o in (obs.get('before') or [])] + [c_call(obs)]
+    return '(mkCase %s %s)' % (_c_skiplist(obs['skip_before']), kv.clist(calls))
 
 
 # ------------------------------------------------------------------------------------------ evidence
@@ -535,6 +658,9 @@ def nontrivial(case, obs):
     ins = obs['inputs']
     if case.get('prior') and any(p in case['skip'] for p in (obs.get('prior_out') or [])):
         return True          # a skipped part was in the output directory before the merge
+    for st in obs.get('before') or []:
+        if any(p not in case['skip'] and any(x[p] for x in ins) and not any(x[p] for x in st['inputs']) for p in SKIPPABLE):
+            return True      # an earlier merge with the same skip list had a part nowhere that this merge has
     if sum(1 for x in ins if x['sensors']) < 2:
         return False
     for part in PARTS[1:]:
@@ -555,18 +681,62 @@ def classify(case, obs):
             gaps += 1                     # the shape that exposed the defect: missing in the first input, present later
     out = 'raise' if 'exc' in obs else 'ok'
     mode = case['mode'] + ('+old-output' if case.get('prior') else '')
+    if case.get('before'):
+        mode += '+session%d%s' % (len(case['before']), '(default-skip)' if case.get('skip_default') else '')
     return f'{mode}/n={len(ins)}/skip={min(len(case["skip"]), 3)}/missing-before-present={min(gaps, 3)}/{out}'
 
 
 def describe(case, obs):
     return {'mode': case['mode'], 'skip': case['skip'], 'output_directory_held_before': obs.get('prior_out'),
+            'earlier_merges_with_the_same_skip_list': [
+                {'inputs': [{p: len(x[p]) for p in PARTS if x[p]} for x in st['inputs']],
+                 'observed': st.get('exc') or {p: len(v) for p, v in st['out'].items() if v},
+                 'skip_list_after': st['skip_after']} for st in (obs.get('before') or [])] or None,
+            'skip_list_after': obs.get('skip_after'),
             'inputs': [{p: (None if x[p] is None else len(x[p])) for p in PARTS if x[p] is not None} for x in case['inputs']],
             'observed': obs.get('exc') or {p: len(v) for p, v in obs['out'].items() if v},
             'new_sensor_ids': None if 'exc' in obs else [e[0] for e in (obs['out']['sensors'] or [])]}
 
 
+def _without_input(case, i):
+    """the case without judged input i (indices used by the session steps follow)"""
+    c = copy.deepcopy(case)
+    del c['inputs'][i]
+    if c.get('before'):
+        c['before'] = [[(it - 1 if it > i else it) if isinstance(it, int) else it for it in step
+                        if not (isinstance(it, int) and it == i)] for step in c['before']]
+        c['before'] = [st for st in c['before'] if st]
+        if not c['before']:
+            del c['before']
+    return c
+
+
 def shrink(case):
     ins = case['inputs']
+    if case.get('before'):
+        c = copy.deepcopy(case)
+        del c['before']
+        c.pop('skip_default', None)
+        yield c
+        if len(case['before']) > 1:
+            for k in range(len(case['before'])):
+                c = copy.deepcopy(case)
+                del c['before'][k]
+                yield c
+        for k, step in enumerate(case['before']):
+            if len(step) > 1:
+                for j in range(len(step)):
+                    c = copy.deepcopy(case)
+                    del c['before'][k][j]
+                    yield c
+            for j, x in enumerate(step):
+                if isinstance(x, int):
+                    continue
+                for part in PARTS[1:]:
+                    if x[part] is not None:
+                        c = copy.deepcopy(case)
+                        c['before'][k][j][part] = None
+                        yield c
     if case.get('prior'):
         c = copy.deepcopy(case)
         del c['prior']
@@ -589,9 +759,7 @@ def shrink(case):
             yield c
     if len(ins) > 1:
         for i in range(len(ins)):
-            c = copy.deepcopy(case)
-            del c['inputs'][i]
-            yield c
+            yield _without_input(case, i)
     if case['skip']:
         c = copy.deepcopy(case)
         c['skip'] = []
@@ -626,7 +794,9 @@ LEVEL_TEXT = ('Theorems in coq/Props/C10.v hold for every list of datasets, ever
               'table (sensors, rigs, trajectories, 7 two-key record kinds, wifi/bluetooth) equals the concatenation over the inputs of '
               'the input table renamed with that same input\'s mapping (so counts add up and nothing is lost, duplicated, overwritten or '
               'attributed to another input), timestamps/addresses/values untouched; trajectories follow the rig mapping first; the only '
-              'failure is an entry referring to an identifier its own input does not define. The model is tied to the code by running '
+              'failure is an entry referring to an identifier its own input does not define. In any sequence of merges handed one skip-list '
+              'object every merge equals the merge of its own inputs alone and the list is left as it was; treating parts that no input '
+              'has as skipped is proved invisible within one call (which is why sequences are run). The model is tied to the code by running '
               'merge_remap on generated datasets and merge_kaptures on real directories and comparing every part inside Coq.')
 LEVEL_NOTE = ('Trusted: Coq kernel + vm_compute, harness encoders and value canonicalisation, kapture csv readers/writers in tool cases. '
               'Nested dict iteration order of the result is abstracted (compared as multisets); nested rigs and dangling identifiers are '
